@@ -367,25 +367,60 @@ func runC04(c *Ctx) error {
 		prev := valuehash.RandomSHA256()
 		heights := 6 + c.Intn(8)
 		for h := 0; h < heights; h++ {
-			point := base.NewPoint(base.Height(int64(33+h)), 0)
-			proposal, newblock := valuehash.RandomSHA256(), valuehash.RandomSHA256()
-			for _, stage := range []base.Stage{base.StageINIT, base.StageACCEPT} {
-				for _, id := range c.Perm(size) {
+			round := base.Round(0)
+			voteAll := func(point base.Point, stage base.Stage, a, b util.Hash, split bool) []base.Voteproof {
+				for j, id := range c.Perm(size) {
 					ln := e.members[id]
 					var sf base.BallotSignFact
 					if stage == base.StageINIT {
+						proposal := a
+						if split && j%2 == 1 {
+							proposal = valuehash.RandomSHA256() // every second node votes for a proposal of its own
+						}
 						x := isaac.NewINITBallotSignFact(isaac.NewINITBallotFact(point, prev, proposal, nil))
 						_ = x.NodeSign(ln.Privatekey(), hNetworkID, ln.Address())
 						sf = x
 					} else {
-						x := isaac.NewACCEPTBallotSignFact(isaac.NewACCEPTBallotFact(point, proposal, newblock, nil))
+						x := isaac.NewACCEPTBallotSignFact(isaac.NewACCEPTBallotFact(point, a, b, nil))
 						_ = x.NodeSign(ln.Privatekey(), hNetworkID, ln.Address())
 						sf = x
 					}
 					_, _ = box.VoteSignFact(sf)
 				}
 				box.Count()
-				for _, vp := range c04drain(box, 500*time.Microsecond) {
+				return c04drain(box, 500*time.Microsecond)
+			}
+			if c.Chance(1, 3) {
+				// round 0 ends in an INIT draw: the ACCEPT stage of that round is over before it began
+				point := base.NewPoint(base.Height(int64(33+h)), round)
+				proposal, newblock := valuehash.RandomSHA256(), valuehash.RandomSHA256()
+				var drew bool
+				for _, vp := range voteAll(point, base.StageINIT, proposal, nil, true) {
+					keep = append(keep, kept{vp: vp, desc: c04describeAny(e, vp)})
+					if vp.Point().Stage() == base.StageINIT && vp.Result() == base.VoteResultDraw {
+						drew = true
+					}
+				}
+				c.Count("long-run-round0", map[bool]string{true: "init-draw", false: "split-without-draw"}[drew])
+				if drew {
+					for _, vp := range voteAll(point, base.StageACCEPT, proposal, newblock, false) {
+						keep = append(keep, kept{vp: vp, desc: c04describeAny(e, vp)})
+						if vp.Point().Point.Equal(point) {
+							c.Violation("C04:voteproof-of-a-finished-round", fmt.Sprintf("long run: after the INIT draw of %v the box still votes on its ACCEPT ballots and emits %v (%v)", point, vp.Point(), vp.Result()),
+								map[string]interface{}{"suffrage": size, "point": point.String(), "emitted": vp.Point().String()})
+						}
+					}
+					round = 1
+				}
+			}
+			point := base.NewPoint(base.Height(int64(33+h)), round)
+			proposal, newblock := valuehash.RandomSHA256(), valuehash.RandomSHA256()
+			for _, stage := range []base.Stage{base.StageINIT, base.StageACCEPT} {
+				a, b := proposal, util.Hash(nil)
+				if stage == base.StageACCEPT {
+					b = newblock
+				}
+				for _, vp := range voteAll(point, stage, a, b, false) {
 					keep = append(keep, kept{vp: vp, desc: c04describeAny(e, vp)})
 				}
 			}
@@ -448,7 +483,7 @@ func runC04(c *Ctx) error {
 			e.oracle(c, vp, fmt.Sprintf("concurrent voters %v", desc), map[string]interface{}{"voters": desc, "suffrage": size})
 		}
 	}
-	return nil
+	return c04carried(c)
 }
 
 // a voteproof of any stage point: its point, result and the (signer, fact hash prefix) pairs
